@@ -19,6 +19,7 @@ All theorems quantify over unbounded `Int` years, times and durations.
 import EPV.Lemmas.CalendarOps
 import EPV.Lemmas.CalendarMk
 import EPV.Lemmas.CalendarDuration
+import EPV.Lemmas.CalendarTime
 namespace EPV.C11
 open EPV.Cal EPV.Timeline
 
@@ -223,6 +224,17 @@ theorem compare_implicit_tz_witness :
     a.Valid ∧ b.Valid ∧ CmpDomain a b ∧ ¬ ImplicitTzIrrelevant a b 840 ∧
     compare .lt a b = false ∧ (absV a).instantI 840 < (absV b).instantI 840 := by decide
 
+/-- **the XPath comparison operators under a dynamic context order values as instants, using the implicit
+timezone** for an operand without timezone (former F11n; `compareCtx` = `_compare` on the operands filled by
+`implicit_timezone_operands`): every pair of valid values, every implicit timezone within ±14:00 or none. -/
+theorem compare_ctx_iff_instant_order (itz : Option Int) (op : Cmp) (a b : DT) (ha : a.Valid) (hb : b.Valid)
+    (hi : TzOk itz) (hd : CmpDomain (fillTz itz a) (fillTz itz b)) :
+    compareCtx itz op a b = op.op ((absV a).instantI (itz.getD 0)) ((absV b).instantI (itz.getD 0)) :=
+  compareCtx_spec itz op a b ha hb hi hd
+
+/-- test (literals): F11n's pair under implicit timezone +14:00 is now ordered by the instants -/
+example : compareCtx (some 840) .lt ⟨2002, 2, 1, 0, none⟩ ⟨2002, 1, 31, 74220000000, some 0⟩ = true := by decide
+
 /-! ### timezone adjustment -/
 
 /-- **`adjust-dateTime-to-timezone` preserves the instant** when both the value and the argument have a
@@ -359,6 +371,117 @@ theorem ctor_rejects_invalid_date (year m d h mi s us : Int) (tz : Option Int) (
 example : mk (-1) 12 31 24 0 0 0 none = .ok ⟨1, 1, 1, 0, none⟩ ∧ mk 10000 2 29 0 0 0 0 none = .ok ⟨10000, 2, 29, 0, none⟩ ∧
     mk 10003 2 29 0 0 0 0 none = .error .value ∧ mk (-1) 2 29 0 0 0 0 none = .ok ⟨-1, 2, 29, 0, none⟩ := by decide
 
+/-! ### xs:time -/
+
+/-- **`time ± dayTimeDuration` wraps modulo 24 hours** and keeps the timezone (F&O
+`op:add-dayTimeDuration-to-time`), for every time of day and every duration inside the domain. -/
+theorem time_add_wraps (t : DT) (dur : Int) (neg : Bool) (ht : IsTime t) (hd : TdOk dur)
+    (hdom : TimeDomain t (if neg then -dur else dur)) :
+    timeAddDur t dur neg = .ok { t with us := (t.us + (if neg then -dur else dur)) % Cal.US } ∧
+    absT { t with us := (t.us + (if neg then -dur else dur)) % Cal.US } = (absT t).add (if neg then -dur else dur) := by
+  refine ⟨?_, rfl⟩
+  unfold timeAddDur
+  rw [tdNorm_ok hd]
+  simp only [bind, Except.bind]
+  exact timeAddUs_spec t _ ht hdom
+
+/-- PARTIAL (known finding F11o): the sum is computed on the proxy date 2000-01-01 with CPython's
+`datetime`, so a duration that moves that date outside years 1..9999 raises `OverflowError` (FODT0001)
+although the time of day is well defined. -/
+theorem time_add_overflow (t : DT) (dur : Int) (neg : Bool) (ht : IsTime t) (hd : TdOk dur)
+    (hdom : ¬ TimeDomain t (if neg then -dur else dur)) : timeAddDur t dur neg = .error .overflow := by
+  unfold timeAddDur
+  rw [tdNorm_ok hd]
+  simp only [bind, Except.bind]
+  exact timeAddUs_err t _ ht hdom
+
+/-- F11o witness: 23:00:00 + P3000000D -/
+theorem time_add_overflow_witness :
+    IsTime ⟨2000, 1, 1, 82800000000, none⟩ ∧ TdOk (3000000 * 86400000000) ∧
+    ¬ TimeDomain ⟨2000, 1, 1, 82800000000, none⟩ (3000000 * 86400000000) ∧
+    timeAddDur ⟨2000, 1, 1, 82800000000, none⟩ (3000000 * 86400000000) false = .error .overflow := by decide
+
+/-- **`adjust-time-to-timezone`** with both timezones present: the time of day moved by the difference of
+the offsets, modulo 24 hours, with the new timezone; never an overflow. -/
+theorem time_adjust_wraps (t : DT) (z0 z : Int) (ht : IsTime t) (htz : t.tz = some z0) (hz : -840 ≤ z ∧ z ≤ 840) :
+    timeAdjust t (some z) = .ok { t with us := (t.us + (z - z0) * Cal.UM) % Cal.US, tz := some z } ∧
+    absT { t with us := (t.us + (z - z0) * Cal.UM) % Cal.US, tz := some z } = (absT t).adjust (some z) := by
+  have hz0 := ht.2.2.2.2.2 z0 htz
+  have hdom : TimeDomain t ((z - z0) * Cal.UM) := by
+    unfold TimeDomain MAXORD
+    have := ht.2.2.2.1; have := ht.2.2.2.2.1
+    simp only [Cal.US, Cal.UM] at *; omega
+  constructor
+  · unfold timeAdjust
+    rw [htz]
+    simp only []
+    rw [timeAddUs_spec t _ ht hdom]
+    rfl
+  · simp only [absT, TVal.adjust, htz]
+
+/-- `adjust-time-to-timezone` without a timezone on either side replaces the timezone only -/
+theorem time_adjust_components (t : DT) (tz : Option Int) (h : t.tz = none ∨ tz = none) :
+    timeAdjust t tz = .ok { t with tz := tz } := by
+  unfold timeAdjust
+  rcases h with h | h
+  · rw [h]
+  · subst h; cases t.tz <;> rfl
+
+/-- **times compare by their position on a common reference day** (F&O `op:time-less-than` etc.), under the
+implicit timezone of the context when one operand has no timezone. -/
+theorem time_compare (itz : Option Int) (op : Cmp) (a b : DT) (ha : IsTime a) (hb : IsTime b) (hi : TzOk itz) :
+    compareCtx itz op a b = op.op ((absT a).key (itz.getD 0)) ((absT b).key (itz.getD 0)) := by
+  unfold compareCtx
+  rw [compare_time op _ _ (fillTz_time ha itz hi) (fillTz_time hb itz hi)]
+  have key : ∀ t : DT, (absT (fillTz itz t)).key 0 = (absT t).key (itz.getD 0) := by
+    intro t; obtain ⟨y, m, d, u, z⟩ := t
+    unfold fillTz
+    cases z <;> cases itz <;> simp [absT, TVal.key, Option.getD]
+  rw [key, key]
+
+/-- **`time − time`** is the difference of the positions on the reference day (`op:subtract-times`). -/
+theorem time_diff (a b : DT) (ha : IsTime a) (hb : IsTime b) :
+    timeDiff a b = TVal.diff 0 (absT a) (absT b) := by
+  unfold timeDiff TVal.diff
+  rw [proxyKey_time a ha, proxyKey_time b hb]; omega
+
+/-- the `xs:time` constructor: the given time of day; `24:00:00` is `00:00:00` -/
+theorem time_ctor (h mi s us : Int) (tz : Option Int)
+    (ht : (0 ≤ h ∧ h ≤ 23 ∧ 0 ≤ mi ∧ mi ≤ 59 ∧ 0 ≤ s ∧ s ≤ 59 ∧ 0 ≤ us ∧ us ≤ 999999) ∨
+          (h = 24 ∧ mi = 0 ∧ s = 0 ∧ us = 0)) :
+    timeMk h mi s us tz = .ok ⟨2000, 1, 1, (if h = 24 then 0 else timeUs h mi s us), tz⟩ := by
+  unfold timeMk
+  rcases ht with ⟨h0, h23, a, b, c, d, e, f⟩ | ⟨rfl, rfl, rfl, rfl⟩
+  · have h24 : (h == 24) = false := by simp; omega
+    simp only [h24, Bool.false_and, Bool.false_eq_true, ↓reduceIte]
+    rw [mk_ok 2000 1 1 h mi s us tz (by decide) (by decide) (by decide) (by decide) ⟨h0, h23⟩ ⟨a, b⟩ ⟨c, d⟩ ⟨e, f⟩]
+    rw [if_neg (by omega)]
+  · simp only [BEq.rfl, Bool.and_self, ↓reduceIte]
+    exact mk_ok 2000 1 1 0 0 0 0 tz (by decide) (by decide) (by decide) (by decide) (by omega) (by omega) (by omega) (by omega)
+
+/-! ### gYear, gYearMonth, gMonth, gMonthDay, gDay -/
+
+/-- the Gregorian partial types store their fields with the defaults year 2000, month 1, day 1 and time
+00:00:00, i.e. the value is the **starting instant** of the year / month / day (XSD 1.1 §3.3.11–15). -/
+theorem gregorian_fields (k : GKind) (year month day : Int) (tz : Option Int) (w : DT)
+    (h : gMk k year month day tz = .ok w) :
+    w.us = 0 ∧ w.tz = tz ∧
+    (k = .gYear → w.month = 1 ∧ w.day = 1) ∧ (k = .gYearMonth → w.day = 1) ∧
+    (k = .gMonth → w.year = 2000 ∧ w.day = 1) ∧ (k = .gMonthDay → w.year = 2000) ∧
+    (k = .gDay → w.year = 2000 ∧ w.month = 1) :=
+  gMk_spec k year month day tz w h
+
+/-- **equality of gYear … gDay values is equality of their starting instants** (F&O `op:gYear-equal` …
+`op:gDay-equal`), the reference year 2000 being a leap year like F&O's 1972. -/
+theorem gregorian_eq_iff_start_instant (itz : Option Int) (a b : DT) (ha : a.Valid) (hb : b.Valid) (hi : TzOk itz)
+    (hd : CmpDomain (fillTz itz a) (fillTz itz b)) :
+    compareCtx itz .eq a b = decide ((absV a).instantI (itz.getD 0) = (absV b).instantI (itz.getD 0)) :=
+  compareCtx_spec itz .eq a b ha hb hi hd
+
+/-- test (literals): --02-29 exists, --02-30 does not; gYear 0000 is 1 BCE in XSD 1.1 numbering (-1) -/
+example : gMk .gMonthDay 0 2 29 none = .ok ⟨2000, 2, 29, 0, none⟩ ∧ gMk .gMonthDay 0 2 30 none = .error .value ∧
+    gMk .gYear (-1) 0 0 (some 60) = .ok ⟨-1, 1, 1, 0, some 60⟩ ∧ gMk .gDay 0 0 31 none = .ok ⟨2000, 1, 31, 0, none⟩ := by decide
+
 /-! ### durations -/
 
 /-- `months2days(year, month, delta)` is the number of days from the 1st of `month` of `year` to the 1st of
@@ -374,6 +497,74 @@ of durations (months, µs) and each of `lt le gt ge`, `Duration._compare_duratio
 theorem duration_order_four_points (op : Cmp) (m1 s1 m2 s2 : Int) :
     Cal.durationCmp op m1 s1 m2 s2 = Timeline.durationCmp op.op m1 s1 m2 s2 :=
   durationCmp_eq op m1 s1 m2 s2
+
+/-- `round_number` (both `Decimal.quantize` branches) is F&O's `fn:round`: nearest integer, ties towards +∞ -/
+theorem round_number_is_fn_round (num den : Int) (hd : 0 < den) :
+    roundNumber num den = Timeline.roundHalfUp num den ∧ IsRoundHalfUp num den (roundNumber num den) :=
+  ⟨roundNumber_eq_spec num den hd, roundNumber_spec num den hd⟩
+
+/-- **`yearMonthDuration × number`** (`number = n / d` exactly: integer, decimal or double): the months are
+`fn:round(months × number)` (F&O `op:multiply-yearMonthDuration`), whenever the result is returned. -/
+theorem ym_mul_rounds (m n d : Int) (hd : 0 < d) (r : Dur) (h : ymMul m n d = .ok r) :
+    r.us = 0 ∧ r.months = Timeline.roundHalfUp (m * n) d ∧ IsRoundHalfUp (m * n) d r.months := by
+  have := durMk_ok _ _ r h
+  subst this
+  exact ⟨rfl, roundNumber_eq_spec _ _ hd, roundNumber_spec _ _ hd⟩
+
+/-- **`yearMonthDuration ÷ number`**: `fn:round(months ÷ number)`; a zero divisor is the operator's error. -/
+theorem ym_div_rounds (m n d : Int) (hn : n ≠ 0) (r : Dur) (h : ymDiv m n d = .ok r) :
+    r.us = 0 ∧ (0 < n → IsRoundHalfUp (m * d) n r.months) ∧ (n < 0 → IsRoundHalfUp (-(m * d)) (-n) r.months) := by
+  unfold ymDiv at h
+  rw [if_neg hn] at h
+  split at h
+  · rename_i hp
+    have := durMk_ok _ _ r h; subst this
+    exact ⟨rfl, fun _ => roundNumber_spec _ _ hp, fun hc => by omega⟩
+  · rename_i hp
+    have := durMk_ok _ _ r h; subst this
+    exact ⟨rfl, fun hc => by omega, fun _ => roundNumber_spec _ _ (by omega)⟩
+
+/-- **`dayTimeDuration × number`** and **`÷ number`**: the µs of the result are a nearest integer of the exact
+product / quotient, the even one on a tie (the duration value space is the µs grid). -/
+theorem dt_mul_nearest (s n d : Int) (hd : 0 < d) (r : Dur) (h : dtMul s n d = .ok r) :
+    r.months = 0 ∧ r.us = Timeline.roundNearestEven (s * n) d ∧ IsRoundHalfEven (s * n) d r.us := by
+  have := durMk_ok _ _ r h
+  subst this
+  exact ⟨rfl, roundHalfEven_eq_spec _ _ hd, roundHalfEven_spec _ _ hd⟩
+
+theorem dt_div_nearest (s n d : Int) (hn : 0 < n) (r : Dur) (h : dtDiv s n d = .ok r) :
+    r.months = 0 ∧ IsRoundHalfEven (s * d) n r.us := by
+  unfold dtDiv at h
+  rw [if_neg (by omega), if_pos hn] at h
+  have := durMk_ok _ _ r h; subst this
+  exact ⟨rfl, roundHalfEven_spec _ _ hn⟩
+
+theorem duration_div_by_zero (x d : Int) : ymDiv x 0 d = .error .zerodiv ∧ dtDiv x 0 d = .error .zerodiv := ⟨rfl, rfl⟩
+
+/-- **duration ± duration** is exact, and `(a + b) − b = a` for yearMonth- and dayTimeDurations inside the
+constructor's limits. -/
+theorem duration_add_sub_cancel (a b : Int) :
+    (∀ r, ymAdd a b false = .ok r → a.natAbs ≤ 2 ^ 31 → r.months = a + b ∧ ymAdd r.months b true = .ok ⟨a, 0⟩) ∧
+    (∀ r, dtAdd a b false = .ok r → a.natAbs ≤ 2 ^ 63 * 1000000 → r.us = a + b ∧ dtAdd r.us b true = .ok ⟨0, a⟩) := by
+  constructor
+  · intro r h ha
+    have := durMk_ok _ _ r h; subst this
+    simp only [Bool.false_eq_true, ↓reduceIte]
+    refine ⟨trivial, ?_⟩
+    unfold ymAdd
+    simp only [↓reduceIte, show a + b - b = a by omega]
+    exact durMk_of_bounds a 0 (by omega) ha (by decide)
+  · intro r h ha
+    have := durMk_ok _ _ r h; subst this
+    simp only [Bool.false_eq_true, ↓reduceIte]
+    refine ⟨trivial, ?_⟩
+    unfold dtAdd
+    simp only [↓reduceIte, show a + b - b = a by omega]
+    exact durMk_of_bounds 0 a (by omega) (by decide) ha
+
+/-- test (literals): P5M × 0.5 = P3M, −P5M × 0.5 = −P2M (ties towards +∞); PT1S × 1.0000005 = PT1S, × 1.0000015 = PT1.000002S -/
+example : ymMul 5 1 2 = .ok ⟨3, 0⟩ ∧ ymMul (-5) 1 2 = .ok ⟨-2, 0⟩ ∧ dtMul 1000000 10000005 10000000 = .ok ⟨0, 1000000⟩ ∧
+    dtMul 1000000 10000015 10000000 = .ok ⟨0, 1000002⟩ ∧ ymDiv 5 (-2) 1 = .ok ⟨-2, 0⟩ := by decide
 
 /-- XSD 1.0 has no year 0000 (`ValueError`), XSD 1.1 accepts every lexical year -/
 theorem lex_year_zero : lexYear false 0 = .error .value ∧ ∀ n : Int, ∃ y, lexYear true n = .ok y :=
